@@ -1,4 +1,5 @@
 SPECIFICATION GSpec
 CONSTANTS Devs = {}
-          Cases <- GQuick
+          Cases <- GSel
+          Family = "GQuick"
 INVARIANTS Emit VisitedExact DepthShortest FetchedExact LocalExact ProvidedExact ResultRight HandlerCallsRight
